@@ -131,7 +131,8 @@ def usage_end_bank(acc, kind, sub, regs_get, ifm_bits, ifm_depth, ofm_hw=None):
     need = required(acc, k, ifm_bits, (eff_bh, bw, bd), ifm_depth, dkh, dkw, sy, sx, regs_get("IFM_UPSCALE"), bool(ks & 4), acc_bits)
     if k == "elementwise":
         binary_full = sub not in ("LRELU", "ABS", "CLZ") and not (regs_get("IFM2_BROADCAST") & 0x80)
+        # the operation is told that its IFM buffers extend to IFM_IB_END: every bank below that mark is the operation's to overwrite
         if binary_full:
-            return regs_get("IFM2_IB_START") + need["ifm_banks"]
-        return 2 + need["ifm_banks"]
+            return max(regs_get("IFM2_IB_START") + need["ifm_banks"], regs_get("IFM_IB_END"))
+        return max(2 + need["ifm_banks"], regs_get("IFM_IB_END"))
     return regs_get("AB_START") + need["acc_banks"]
